@@ -123,11 +123,21 @@ def one(job):
     try:
         root.mkdir(parents=True)
         cfgf = root / 'my_config.json'
-        vf = root / 'v.json'
+        vf, vf2 = root / 'v.json', root / 'v_other.json'
         vf.write_text(json.dumps({'tasks': [f'{MODULE}.VocTask'], 'w': 9}))
-        cfgf.write_text(json.dumps({'tasks': [f'{MODULE}.M{t}Task' for t in 'abcpgm'] + [f'{MODULE}.FigTask', f'{MODULE}.ContTask',
-                                                                                      f'{MODULE}.RepTask', f'{MODULE}.EmptyTask'],
-                                    'x': 4, 'uses': [f'{vf} as left', f'{vf} as right']}))
+        vf2.write_text(json.dumps({'tasks': [f'{MODULE}.VocTask'], 'w': 9}))
+        # the two mounts hold the same computation, declared by one file (even cases) or by two files (odd cases)
+        doc = {'tasks': [f'{MODULE}.M{t}Task' for t in 'abcpgm'] + [f'{MODULE}.FigTask', f'{MODULE}.ContTask',
+                                                                    f'{MODULE}.RepTask', f'{MODULE}.EmptyTask'],
+               'x': 4, 'uses': [f'{vf} as left', f'{vf if idx % 2 == 0 else vf2} as right']}
+        if idx % 3 == 2:
+            # the pipeline is a PART (not the first one) of a multi-config file
+            import yaml
+            cfgf = root / 'multi.yaml'
+            cfgf.write_text(yaml.safe_dump({'configs': {'other': {'tasks': [], 'x': 0}, 'pipe': doc}}, sort_keys=False))
+            cfgf = f'{cfgf}#pipe'
+        else:
+            cfgf.write_text(json.dumps(doc))
         srcdir, dstdir = root / 'src', root / 'dst'
         old = Config(srcdir, cfgf).chain(parameter_mode=False)
         vals = {}
@@ -147,6 +157,8 @@ def one(job):
         for t in TASKS:
             if TASKS[t] != 'mem' and t not in stored:
                 old[SLUG[t]].force(delete_data=True)
+                if t == 'v':      # (declared by two files in the odd cases: the other mount's result is another name-mode file)
+                    old['right::voc'].force(delete_data=True)
         before = files(srcdir)
         for step in case['hist']:
             dst_before = files(dstdir) if dstdir.exists() else {}
